@@ -201,3 +201,53 @@ package fri
 //@   ensures[shape] shape_fri(friProof, instance, f.friParams)
 //@   ensures[rounds] len(friProof.QueryRoundProofs) == f.friParams.Config.NumQueryRounds && len(friChallenges.FriQueryIndices) == len(friProof.QueryRoundProofs)
 //@   loop 0 invariant -1 <= rangeindex && rangeindex < len(friChallenges.FriQueryIndices)
+
+// ------------------------------------------------------------------ FRI instance (plonky2 get_fri_instance): oracles and polynomial lists
+//@ def cd_small(c) = c.NumConstants <= pow2(32) && c.Config.NumRoutedWires <= pow2(32) && c.Config.NumWires <= pow2(32) && c.Config.NumChallenges <= pow2(16) && c.NumPartialProducts <= pow2(32) && c.QuotientDegreeFactor <= pow2(32) && c.DegreeBits <= 32
+//@ def polys_are(l, off, n, oracle) = forall(k, 0, n, l[off + k].OracleIndex == oracle && l[off + k].PolynomialInfo == k)
+
+//@ func polynomialInfoFromRange(c *types.CommonCircuitData, oracleIdx uint64, startPolyIdx uint64, endPolyIdx uint64) (res []PolynomialInfo)
+//@   props C13 C20
+//@   plain
+//@   requires startPolyIdx <= endPolyIdx && endPolyIdx <= pow2(62)
+//@   ensures len(res) == endPolyIdx - startPolyIdx
+//@   ensures forall(k, 0, len(res), res[k].OracleIndex == oracleIdx && res[k].PolynomialInfo == startPolyIdx + k)
+//@   loop 0 invariant startPolyIdx <= i && i <= endPolyIdx && len(returnArr) == i - startPolyIdx && forall(k, 0, len(returnArr), returnArr[k].OracleIndex == oracleIdx && returnArr[k].PolynomialInfo == startPolyIdx + k)
+
+//@ func numPreprocessedPolys(c *types.CommonCircuitData) (res uint64)
+//@   props C13 C20
+//@   plain
+//@   requires cd_small(c)
+//@   ensures res == c.NumConstants + c.Config.NumRoutedWires
+
+//@ func sigmasRange(c *types.CommonCircuitData) (res []uint64)
+//@   props C13 C20
+//@   plain
+//@   requires cd_small(c)
+//@   ensures len(res) == c.Config.NumRoutedWires + 1 && forall(k, 0, len(res), res[k] == c.NumConstants + k)
+//@   loop 0 invariant c.NumConstants <= i && i <= c.NumConstants + c.Config.NumRoutedWires + 1 && len(returnArr) == i - c.NumConstants && forall(k, 0, len(returnArr), returnArr[k] == c.NumConstants + k)
+
+//@ func friAllPolys(c *types.CommonCircuitData) (res []PolynomialInfo)
+//@   props C13 C20
+//@   plain
+//@   requires cd_small(c)
+//@   ensures len(res) == (c.NumConstants + c.Config.NumRoutedWires) + c.Config.NumWires + c.Config.NumChallenges * (1 + c.NumPartialProducts) + c.Config.NumChallenges * c.QuotientDegreeFactor
+//@   ensures polys_are(res, 0, c.NumConstants + c.Config.NumRoutedWires, 0)
+//@   ensures polys_are(res, c.NumConstants + c.Config.NumRoutedWires, c.Config.NumWires, 1)
+//@   ensures polys_are(res, c.NumConstants + c.Config.NumRoutedWires + c.Config.NumWires, c.Config.NumChallenges * (1 + c.NumPartialProducts), 2)
+//@   ensures polys_are(res, c.NumConstants + c.Config.NumRoutedWires + c.Config.NumWires + c.Config.NumChallenges * (1 + c.NumPartialProducts), c.Config.NumChallenges * c.QuotientDegreeFactor, 3)
+
+//@ func (f *Chip) GetInstance(zeta gl.QuadraticExtensionVariable) (res InstanceInfo)
+//@   props C13 C20 C05
+//@   circuit
+//@   requires chipok(f.gl) && canonQE(zeta) && cd_small(f.commonData)
+//@   ensures len(res.Oracles) == 4 && len(res.Batches) == 2
+//@   ensures res.Oracles[0].NumPolys == f.commonData.NumConstants + f.commonData.Config.NumRoutedWires && res.Oracles[1].NumPolys == f.commonData.Config.NumWires
+//@   ensures res.Oracles[2].NumPolys == f.commonData.Config.NumChallenges * (1 + f.commonData.NumPartialProducts) && res.Oracles[3].NumPolys == f.commonData.Config.NumChallenges * f.commonData.QuotientDegreeFactor
+//@   ensures !res.Oracles[0].Blinding && res.Oracles[1].Blinding && res.Oracles[2].Blinding && res.Oracles[3].Blinding
+//@   ensures res.Batches[0].Point == zeta && canonQE(res.Batches[1].Point)
+//@   ensures res.Batches[1].Point == qe_mul(tuple(gl_sq_iter0(1753635133440165772, 32 - f.commonData.DegreeBits), 0), zeta)
+//@   ensures len(res.Batches[1].Polynomials) == f.commonData.Config.NumChallenges && polys_are(res.Batches[1].Polynomials, 0, f.commonData.Config.NumChallenges, 2)
+//@   ensures len(res.Batches[0].Polynomials) == (f.commonData.NumConstants + f.commonData.Config.NumRoutedWires) + f.commonData.Config.NumWires + f.commonData.Config.NumChallenges * (1 + f.commonData.NumPartialProducts) + f.commonData.Config.NumChallenges * f.commonData.QuotientDegreeFactor
+//@   ensures polys_are(res.Batches[0].Polynomials, 0, f.commonData.NumConstants + f.commonData.Config.NumRoutedWires, 0)
+//@   ensures polys_are(res.Batches[0].Polynomials, f.commonData.NumConstants + f.commonData.Config.NumRoutedWires, f.commonData.Config.NumWires, 1)
